@@ -3,6 +3,7 @@ import heapq
 import math
 import struct
 
+from . import absint as _absint
 from .absint import (tl, EMPTY, p_const, p_add, p_mul, RQ, I, Fl, Ag, En, Sq, Pt, Top, Md, UNIT, BOT, Bot, St, Ctx, Frame, Unsupported, Diverge, PathAbort,
                      INF, USIZE_MAX, ISIZE_MAX, array_len, join_states, same_state, gc_state, map_value, iter_ints, rename_vid)
 from .facts import CheckerError, const_of, decode_scalar
@@ -682,6 +683,15 @@ class Interp:
             elif op == "BitAnd":
                 if la >= 0 and lb >= 0:
                     mlo, mhi = 0, min(ha, hb)
+                    # known bits (provenance ("kbits", (), (mask, value))) of one side against a constant on the other:
+                    # every bit known to be 1 that the constant keeps is 1 in the result
+                    for x, c in ((a, lb if lb == hb else None), (b, la if la == ha else None)):
+                        pk_ = st.prov.get(x.vid)
+                        if c is not None and pk_ and pk_[0] == "kbits":
+                            ones = pk_[2][0] & pk_[2][1] & c
+                            zeros_known = pk_[2][0] & ~pk_[2][1]
+                            mlo = max(mlo, ones)
+                            mhi = min(mhi, c & ~zeros_known & 0xFFFFFFFFFFFFFFFF)
                 elif lb >= 0:
                     mlo, mhi = 0, hb
                 elif la >= 0:
@@ -730,7 +740,7 @@ class Interp:
             ra = st.res.get(a.vid, p_const(la) if la == ha else None)
             rb = st.res.get(b.vid, p_const(lb) if lb == hb else None)
             if base == "Rem":
-                if ra is not None and lb == hb == RQ:
+                if ra is not None and lb == hb == _absint.RQ:
                     rpoly = ra
             elif ra is not None and rb is not None:
                 if len(ra) * len(rb) <= 64:
